@@ -63,7 +63,7 @@ class Overlap2D(Case):
             if not noalias: cs += [V[x + '1'] == V[x + '2'] for x in 'flsght']
             return cs
         Case.__init__(s, f'ov2{"" if noalias else "s"}_{SHORT[T]}_{M}x{N}_{m}x{n}_{OPN[op]}', [a] + sc, k, r, desc=f'2-D overlapping view assignment {op} on {M}x{N}, extent {m}x{n} {T}', pre=pre)
-        s.dom = 'uf' if T in FT else 'bits'; s.uf_int = T in IT; s.max_paths = 600; s.timeout = 30; s.weight = 40
+        s.dom = 'uf' if T in FT else 'bits'; s.uf_int = T in IT; s.max_paths = 600; s.timeout = 30; s.weight = 40; s.budget = 300
 
 
 class FixSelf2D(Case):
@@ -74,7 +74,7 @@ class FixSelf2D(Case):
         dbl = 't_+t_' if T in FT else f'({T})(({UT[T]})t_+({UT[T]})t_)'
         r = f'for(int i=0;i<{M};++i) for(int j={f};j<{l};++j) {{ {T} t_ = a[i*{N}+j]; ' + apply_op(T, op, f'a[i*{N}+j]', dbl) + ' }'
         Case.__init__(s, f'ovself2_{SHORT[T]}_{M}x{N}_{f}_{l}_{OPN[op]}', [a], k, r, desc=f'{v} {op} {v}+{v} on {M}x{N} {T}')
-        s.dom = 'uf' if T in FT else 'bits'; s.uf_int = T in IT
+        s.dom = 'uf' if T in FT else 'bits'
 
 
 class FixOverlap(Case):
@@ -90,7 +90,7 @@ class FixOverlap(Case):
             return []
         nm = lambda sp: '_'.join(str(x) for x in sp[1:])
         Case.__init__(s, f'ovf{"" if noalias else "s"}_{SHORT[T]}_{N}_{nm(sp1)}__{nm(sp2)}_{OPN[op]}', [a], k, r, desc=f'A({spec_cpp(sp1)}){na} {op} A({spec_cpp(sp2)}) on Tensor<{T},{N}>', pre=pre)
-        s.dom = 'uf' if T in FT else 'bits'; s.uf_int = T in IT
+        s.dom = 'uf' if T in FT else 'bits'
 
 
 OPS = ['=', '+=', '-=', '*=', '/=']
@@ -104,10 +104,11 @@ def cases(tier, cfg, seed):
             for (N, n) in ([(9, 4)] if tier == 'quick' else [(9, 4), (9, 3), (17, 8), (12, 5)]):
                 out.append(Overlap1D(T, N, n, op, 'view'))
                 if op in ('=', '+='): out.append(Overlap1D(T, N, n, op, 'scaled')); out.append(Overlap1D(T, N, n, op, 'plusB'))
-                out.append(Overlap1D(T, N, n, op, 'scaled', noalias=False))
+                if not (T in IT and op == '/='): out.append(Overlap1D(T, N, n, op, 'scaled', noalias=False))   # a+a may be 0 for ints
             out.append(Overlap1D(T, 9, 4, op, 'view', neg=True))
         out.append(Overlap1D(T, 9, 3, '=', 'view', twice=True)); out.append(Overlap1D(T, 9, 3, '+=', 'view', twice=True))
-        for op in (('=', '+=') if tier == 'quick' else OPS):
+        for op in (('=',) if tier == 'quick' else OPS):
+            if tier == 'quick' and (T != 'double' or cfg.isa != 'avx2'): continue
             out.append(Overlap2D(T, 4, 5, 2, 2, op))
             out.append(Overlap2D(T, 3, 9, 2, 4, op, noalias=False))
         if tier != 'quick': out.append(Overlap2D(T, 4, 9, 2, 4, '='))
